@@ -88,7 +88,11 @@ StepVerdict(e, fValue, fSol, fRt) ==
                 /\ KnownKinds(e.re)
                 /\ Same(o, e.re)
                 /\ Vars(o) = Vars(e.re)
+      \* the whole tree was rewritten (the node handed over was the root), yet the node named as the result still hangs under another
+      \* node and the tree around it is the unchanged source: the rewrite never reached the tree - its "root" has a parent
+      lostOK == ~("rn" \in DOMAIN e /\ e.rn # 0 /\ e.hb.p[e.node] = 0 /\ e.rn \in DOMAIN e.ha.p /\ e.ha.p[e.rn] # 0 /\ o = s)
   IN base
+     \cup (IF lostOK THEN {} ELSE {"wf_result_of_root_rewrite_has_a_parent"})
      \cup (IF valueOK THEN {} ELSE {"value"}) \cup (IF solOK THEN {} ELSE {"solutions"})
      \cup (IF zeroOK THEN {} ELSE {"divides_by_zero"})
      \cup (IF varsOK THEN {} ELSE {"vars"}) \cup (IF ctxOK THEN {} ELSE {"context"})
